@@ -879,7 +879,7 @@ class Executor:
         if mi is None:
             # external module
             return VFunc("builtin", mod + "." + name) if not missing_ok else None
-        node = mi.lookup(name)
+        node = mi.lookup(name, getattr(self.reg, "name_prefer", {}).get((mod, name), "else"))
         if node is not None:
             if isinstance(node, (ast.FunctionDef, ast.AsyncFunctionDef)):
                 return VFunc("repo", name, finfo=loader.FuncInfo(mod, name, node))
